@@ -573,6 +573,108 @@ def sec_gaussian(rec, patches=None):
                           replay=replay_ops, nonlinear=True, twin=False)
 
 
+def replay_purity(cex):
+    """installed library: no converter modifies the image it is given; operators of converters therefore equal the operators of their results"""
+    from acryo import pipe
+
+    rng = np.random.default_rng(2)
+    img = rng.normal(size=(9, 10, 8)).astype(np.float32)
+    img[3:6, 3:7, 2:6] += 4
+    mask = img > 2
+    bad = {}
+    convs = {"threshold_otsu": (pipe.threshold_otsu(), img), "dilation(+)": (pipe.dilation(1.2), mask), "dilation(-)": (pipe.dilation(-1.2), mask), "closing": (pipe.closing(1.2), mask),
+             "gaussian_smooth": (pipe.gaussian_smooth(1.5), mask), "soft_otsu": (pipe.soft_otsu(1.0, 1.0), img), "center_by_mass": (pipe.center_by_mass(), img),
+             "gaussian_filter": (pipe.gaussian_filter(sigma=1.0), img), "lowpass_filter": (pipe.lowpass_filter(0.3), img), "highpass_filter": (pipe.highpass_filter(0.1), img), "shift": (pipe.shift((0.5, 0, 1)), img)}
+    for name, (cv, x) in convs.items():
+        x0 = x.copy()
+        try:
+            first = np.asarray(cv(x, 1.0)).copy()
+            if not np.array_equal(x, x0):
+                bad[name] = "input modified in place"
+                x[...] = x0
+                continue
+            again = np.asarray(cv(x, 1.0))
+            if first.shape != again.shape or not np.allclose(first, again, equal_nan=True):
+                bad[name] = "second call on the same image differs"
+        except Exception as e:
+            bad[name] = repr(e)[:120]
+    wide, narrow = pipe.gaussian_smooth(2.0), pipe.gaussian_smooth(1.0)
+    m0 = mask.copy()
+    d = (wide - narrow)(mask, 1.0)
+    ref = wide(m0.copy(), 1.0) - narrow(m0.copy(), 1.0)
+    if not np.allclose(d, ref, atol=1e-6):
+        bad["(wide - narrow)(mask) vs wide(mask) - narrow(mask)"] = float(np.abs(d - ref).max())
+    return len(bad) > 0, {"problems": bad}
+
+
+def sec_purity(rec, patches=None):
+    """converters do not modify the image they are given (an operator of converters evaluates both operands on the same image object)"""
+    L = _load(patches)
+    M, T = L["acryo.pipe._masking"], L["acryo.pipe._transform"]
+    ndi = L.ndi
+    rec.encodes("acryo/pipe/_masking.py:threshold_otsu/dilation/closing/gaussian_smooth/soft_otsu (input not modified)", "acryo/pipe/_transform.py:center_by_mass/gaussian_filter/lowpass_filter/highpass_filter/shift (input not modified)",
+                "acryo/pipe/_classes.py:ImageConverter.__sub__ (operands share the input)")
+    rec.assume("scipy.ndimage calls are recorded and return new arrays (scipy's own purity is not the subject); the distance transform returns symbolic distances")
+    sig, scale, r = real("sigma"), real("scale"), real("r")
+    hyps = [scale.e > 0, sig.e > 0]
+    dsym = [real(f"d{k}") for k in range(4)]
+    ndi.distance_transform_edt = lambda x: to_symarray(dsym).reshape(np.shape(x))
+    masks = [np.array([[[True, False], [False, True]]]), np.array([[[False, True], [True, True]]])]
+    cases = []
+    for mk in masks:
+        cases.append(("gaussian_smooth", lambda m: M.gaussian_smooth(sig)(m, scale), mk, hyps))
+        cases.append(("dilation", lambda m: M.dilation(r)(m, scale), mk, hyps + [r.e / scale.e <= 2, r.e / scale.e >= -2]))
+        cases.append(("closing", lambda m: M.closing(r)(m, scale), mk, hyps + [r.e / scale.e <= 2, r.e / scale.e >= -2]))
+        cases.append(("gaussian_smooth(wide) - gaussian_smooth(narrow)", lambda m: (M.gaussian_smooth(sig * 2) - M.gaussian_smooth(sig))(m, scale), mk, hyps))
+    fimg = np.arange(8, dtype=np.float32).reshape(2, 2, 2)
+    cases.append(("gaussian_filter", lambda m: T.gaussian_filter(sigma=sig)(m, scale), fimg, hyps))
+    cases.append(("shift", lambda m: T.shift((sig, 0, sig))(m, scale), fimg, hyps))
+    for ci, (name, fn, arr, hy) in enumerate(cases):
+        def run():
+            x = arr.copy()
+            out = fn(x)
+            return x, out
+
+        for pi, pth in enumerate(explore(run, assumptions=hy, max_paths=60)):
+            tag = f"purity/{name}#{ci}/path{pi}"
+            if not pth.ok:
+                rec.fact(f"{tag}/runs", False, key="C19/purity/raises", detail={"exc": repr(pth.exc)[:300]}, reproduced=replay_purity({})[0])
+                continue
+            x, out = pth.result
+            same = isinstance(x, np.ndarray) and x.dtype == arr.dtype and np.array_equal(x, arr)
+            rec.fact(f"{tag}/input-not-modified", bool(same), key="C19/purity/input-modified", detail={"before": arr.astype(float).ravel().tolist(), "after": np.asarray(x, dtype=object).ravel().tolist().__repr__()[:200]},
+                     reproduced=True if same else replay_purity({})[0])
+            if " - " in name and same:
+                # the difference of two converters is the difference of their results on the same mask: exp(-d^2/2(2s)^2) - exp(-d^2/2s^2), voxel by voxel
+                o = _obj(out)
+                flat = o.reshape(-1)
+                for k in range(flat.size):
+                    t = zr(flat[k])
+                    s2 = (sig.e / scale.e) * (sig.e / scale.e)
+                    want_w = -(dsym[k].e * dsym[k].e) / (2 * 4 * s2)
+                    want_n = -(dsym[k].e * dsym[k].e) / (2 * s2)
+                    exps = _exp_args(t)
+                    ok = len(exps) == 2
+                    rec.fact(f"{tag}/voxel{k}-is-a-difference-of-two-gaussians", ok, key="C19/purity/operator-form", detail={"term": str(t)[:160]}, reproduced=True if ok else replay_purity({})[0])
+                    if ok:
+                        rec.query(f"{tag}/voxel{k}-exponents", hy + [pth.condition()], z3.Or(z3.And(exps[0] == want_w, exps[1] == want_n), z3.And(exps[0] == want_n, exps[1] == want_w)),
+                                  key="C19/purity/operator-exponents", replay=replay_purity, nonlinear=True, twin=False)
+
+
+def _exp_args(t):
+    out, stack, seen = [], [t], set()
+    while stack:
+        u = stack.pop()
+        if u.get_id() in seen:
+            continue
+        seen.add(u.get_id())
+        if z3.is_app(u) and u.decl().name() == "Exp":
+            out.append(u.children()[0])
+            continue
+        stack.extend(u.children())
+    return out
+
+
 def sec_normalize(rec, patches=None):
     """LoaderBase.normalize_template / normalize_mask / normalize_input call providers/converters with the loader's scale"""
     L = load.load(MODS + ["acryo.loader._base"], patches=patches)
@@ -608,7 +710,7 @@ def sec_normalize(rec, patches=None):
 
 def sections(tier):
     return [("operators", "checks.c19", "sec_operators", {}), ("compose", "checks.c19", "sec_compose", {}), ("units", "checks.c19", "sec_units", {}),
-            ("gaussian", "checks.c19", "sec_gaussian", {}), ("normalize", "checks.c19", "sec_normalize", {}), ("readers", "checks.c19", "sec_readers", {})]
+            ("gaussian", "checks.c19", "sec_gaussian", {}), ("normalize", "checks.c19", "sec_normalize", {}), ("readers", "checks.c19", "sec_readers", {}), ("purity", "checks.c19", "sec_purity", {})]
 
 
 _CL, _MK, _TR, _IM, _LB = "acryo.pipe._classes", "acryo.pipe._masking", "acryo.pipe._transform", "acryo.pipe._imread", "acryo.loader._base"
@@ -632,6 +734,7 @@ MUTANTS = [
     ("from_gaussian-square-of-sum (defect fixed by 'fix: from_gaussian...')", "checks.c19", "sec_gaussian", {},
      {_IM: [("sum(((xx - c) / sg) ** 2 for xx, c, sg in zip(crds, center_subpix, sigma_px))", "sum((xx - c) / sg for xx, c, sg in zip(crds, center_subpix, sigma_px)) ** 2")]}),
     ("from_gaussian-shift-in-pixels", "checks.c19", "sec_gaussian", {}, {_IM: [("/ 2 + np.array(shift) / scale", "/ 2 + np.array(shift)")]}),
+    ("gaussian_smooth-inverts-its-input-in-place (seeded change C19_5)", "checks.c19", "sec_purity", {}, {_MK: [("    img = ~img\n", "    img = np.logical_not(img, out=img)\n")]}),
     ("normalize_template-scale-1", "checks.c19", "sec_normalize", {}, {_LB: [("            return template(self.scale)\n", "            return template(1.0)\n")]}),
     ("normalize_mask-unscaled-converter", "checks.c19", "sec_normalize", {}, {_LB: [("return mask.with_scale(self.scale)", "return mask.with_scale(1.0)")]}),
 ]
@@ -655,7 +758,9 @@ def run(tier, procs=None, only=None):
 
 
 def replay(data):
-    ok, detail = replay_ops(data.get("cex") or {})
+    key = data.get("key", "")
+    fn = replay_purity if "purity" in key else (replay_readers if "readers" in key else replay_ops)
+    ok, detail = fn(data.get("cex") or {})
     print("replay:", detail)
     print("REPRODUCED" if ok else "not reproduced")
     return 1 if ok else 0
